@@ -5,6 +5,11 @@ x the declarator-suffix alphabet, in the in-line FFI and in the FFI of an import
 out-of-line module.  Oracles: re-parse identity against a type built independently
 with _cffi_backend.new_pointer_type / new_array_type / new_function_type; gcc
 acceptance and sizeof of the emitted declarations.
+
+Further families (helpers in _c08x.py): the string form of getctype, model.get_c_name,
+an extended suffix alphabet read by a declarator interpreter, and side families of
+ctypes outside the C07 grammar (unnamed aggregates, all primitive names, large array
+lengths, function types with many parameters).
 """
 import collections
 import gc
@@ -16,6 +21,7 @@ import subprocess
 from .. import build, pool
 from ..build import InfraError
 from . import _typegrammar as G
+from . import _c08x as X
 
 ID = "C08"
 LEVEL = "exploration"
@@ -29,15 +35,36 @@ META = dict(
          "array / function-pointer type that x denotes, the expected object being built from T with the backend's "
          "new_pointer_type / new_array_type / new_function_type and never from a name.  For every non-function T "
          "with a size, `getctype(T, 'v');` is compiled by gcc next to the context's declarations and sizeof(v) is "
-         "compared with ffi.sizeof(T).",
+         "compared with ffi.sizeof(T).  Added families, all enumerated completely: (1) every getctype call is made in "
+         "both forms, getctype(T, x) and getctype(<string denoting T>, x), which must give the same text; (2) in the "
+         "in-line FFI the third implementation of the placement rule, model.get_c_name(x) of the parsed type, must "
+         "give the same text or a text that re-parses to the same expected ctype; (3) an extended alphabet of %d more "
+         "declarator texts (white space round and inside the text, `**`, `*const`, `* volatile*`, named forms "
+         "`(*v)(int)`, `(*v[2])(int)`, `v[2][3]`, parameter lists `(void)`, `(int, ...)`, `(int, char *)`, nested "
+         "`(*(*)(int))[2]`, `(*(*)[2])[3]`), whose expected ctype comes from a declarator interpreter (pointer / "
+         "array / function applied inside-out with the backend's constructors; cross-checked against the table of "
+         "the ten basic suffixes on every type), applied to the first %d ctypes of every (FFI, kind-of-type) class in "
+         "the quick tier and to every ctype of derivation depth <= 3 in the thorough tier; (4) side families under "
+         "all %d suffixes in a context that adds unnamed aggregates: ctypes whose struct/union/enum has no tag and "
+         "no typedef name of its own (`typedef struct {..} *p;`, `typedef struct {..} *p, n;`, types of fields "
+         "declared with an anonymous aggregate) and named controls, each also under pointer / array / function "
+         "wrappers; every key of ALL_PRIMITIVE_TYPES (gcc: with <stdint.h>, <uchar.h>, ... and the two "
+         "_cffi_*_complex_t typedefs of cffi's own header); array lengths 255 .. 2**63-1 in five positions of a "
+         "name (gcc: _Static_assert on sizeof, nothing executed); function pointer types with 3..8 parameters, "
+         "nested parameter lists, aggregate and array-written parameters." % (
+             len(X.EXT_SUFFIXES), 6, len(X.ALL_SUFFIXES)),
     note="suffixes whose denoted type does not exist (array of void, function returning an array, ...) promise "
          "nothing and are counted, not compared; gcc 12 (-w, GNU C: zero-length arrays allowed) is the authority "
          "for the declarations; ctype identity relies on the backend's unique-type cache, which is what the "
-         "statement's `is T` refers to")
+         "statement's `is T` refers to; qualifiers in a suffix (`*const`) denote the unqualified cffi ctype (cffi "
+         "ctypes carry no qualifiers); a name inside redundant grouping parentheses (`(v)`) is not a type string "
+         "(C reads `int(v)` in a type name as a function type) and is not in the alphabet")
 
-SUFFIXES = ["", "*", "[3]", "[]", "(*)(int)", "*[2]", "(*)[2]", "v", "*v", "v[2]"]
+SUFFIXES = X.BASE_SUFFIXES
+EXT_PER_CLASS = 6           # quick tier: the extended suffixes go to the first N ctypes of every (FFI, tkind) class
 BLOCK1 = 1500
 BLOCK2 = 150
+BLOCK3 = 32
 
 _PAIR = None
 
@@ -121,33 +148,102 @@ def tkind(T):
     return k
 
 
-def check_type(ffi, T):
-    """-> (n comparisons, counts, [(sig kind, suffix, info)], gcc decl or None, sizeof or None)"""
+def want_type(T, x):
+    """Expected ctype of suffix x on T, or None when no such type exists.  The ten basic suffixes come from the
+    table expected_type(); the interpreter X.denote() must agree with the table on them (checked on every type, a
+    disagreement is a harness bug) and alone decides the extended ones."""
+    try:
+        d = X.denote(T, x)
+    except X.NoSuchType:
+        d = None
+    if x in SUFFIXES:
+        try:
+            w = expected_type(T, x)
+        except Exception:
+            w = None
+        if w is not d:
+            raise InfraError("declarator interpreter and suffix table disagree on %r %r: %r / %r" % (T, x, d, w))
+    return d
+
+
+def _first_line(e):
+    return "%s: %s" % (type(e).__name__, (str(e).splitlines() or [""])[0])
+
+
+def desc_tkind(desc):
+    """tkind() from the structural description."""
+    if desc[0] == "pointer":
+        return "pointer_of_%s" % desc[1][0]
+    if desc[0] == "array":
+        return "array_of_%s" % desc[2][0]
+    return desc[0]
+
+
+def check_type(ffi, T, s=None, suffixes=SUFFIXES, model=None):
+    """s: a string that denotes T in ffi (the string form of getctype is then called too); model: the
+    cffi.model type that the in-line parser made of s (its get_c_name is then checked too).
+    -> (n comparisons, counts, [(sig kind, suffix, info)], gcc decl or None, sizeof or None)"""
     bad = []
     counts = collections.Counter()
     n = 0
-    for x in SUFFIXES:
+    for x in suffixes:
+        ext = "" if x in SUFFIXES else "ext:"
         try:
             name = ffi.getctype(T) if x == "" else ffi.getctype(T, x)
         except Exception as e:
             bad.append(("getctype_raises", x, {"error": "%s: %s" % (type(e).__name__, e)}))
             continue
-        try:
-            want = expected_type(T, x)
-        except Exception:
-            counts["no_such_type:%s" % x] += 1
+        if s is not None:
+            n += 1
+            try:
+                name2 = ffi.getctype(s) if x == "" else ffi.getctype(s, x)
+            except Exception as e:
+                bad.append(("string_form_raises", x, {"string": s, "error": _first_line(e)}))
+            else:
+                if name2 != name:
+                    bad.append(("string_form_differs", x, {"string": s, "from_ctype": name, "from_string": name2}))
+                else:
+                    counts["string_form_same_text"] += 1
+        want = want_type(T, x)
+        if want is None:
+            counts["no_such_type:%s%s" % (ext, x)] += 1
             continue
         n += 1
         try:
             got = ffi.typeof(name)
         except Exception as e:
-            bad.append(("reparse_rejects", x, {"name": name, "error": "%s: %s" % (
-                type(e).__name__, (str(e).splitlines() or [""])[0]), "expected": G.describe(want)}))
-            continue
-        if got is not want:
-            bad.append(("reparse_differs", x, {"name": name, "got": G.describe(got), "expected": G.describe(want)}))
+            bad.append(("reparse_rejects", x, {"name": name, "error": _first_line(e), "expected": G.describe(want)}))
         else:
-            counts["roundtrip_ok:%s" % x] += 1
+            if got is not want:
+                bad.append(("reparse_differs", x, {"name": name, "got": G.describe(got),
+                                                   "expected": G.describe(want),
+                                                   "got_leaf": leaf_of(got), "expected_leaf": leaf_of(want)}))
+            else:
+                counts["roundtrip_ok:%s%s" % (ext, x)] += 1
+        if model is not None:
+            n += 1
+            try:
+                mname = model.get_c_name(x)
+            except Exception as e:
+                # get_c_name refuses `$` names on purpose ("cannot generate ... in a C file"): it emits no text,
+                # and the statement is about the text that is emitted
+                counts["model_name:refuses:%s" % type(e).__name__] += 1
+                n -= 1
+                continue
+            if mname == name:
+                counts["model_name:same_text"] += 1
+                continue
+            try:
+                got = ffi.typeof(mname)
+            except Exception as e:
+                bad.append(("model_name_rejects", x, {"name": mname, "getctype": name, "error": _first_line(e),
+                                                      "expected": G.describe(want)}))
+                continue
+            if got is not want:
+                bad.append(("model_name_differs", x, {"name": mname, "getctype": name, "got": G.describe(got),
+                                                      "expected": G.describe(want)}))
+            else:
+                counts["model_name:other_text_same_type"] += 1
     decl = size = None
     if T.kind != "function":
         try:
@@ -162,6 +258,30 @@ def check_type(ffi, T):
     else:
         counts["gcc_clause_skipped:function"] += 1
     return n, counts, bad, decl, size
+
+
+def leaf_of(ct):
+    """Tells two struct/union ctypes of the same name apart in the report: the innermost named type and its
+    field names (None: opaque)."""
+    for _ in range(64):
+        k = ct.kind
+        if k in ("pointer", "array"):
+            ct = ct.item
+        elif k == "function":
+            ct = ct.result
+        else:
+            break
+    if ct.kind in ("struct", "union"):
+        return [ct.cname, None if ct.fields is None else [f for f, _ in ct.fields]]
+    return [ct.cname]
+
+
+def model_of(ffi, s):
+    """What the in-line parser makes of s, the way FFI._typeof_locked does."""
+    tp = ffi._parser.parse_type(s)
+    if tp.is_raw_function:
+        tp = tp.as_function_pointer()
+    return tp
 
 
 C_HEAD = "#include <stdio.h>\n#include <stddef.h>\n" + G.DECLS + "\n"
@@ -227,23 +347,53 @@ def gcc_sizes(decls, workdir, tag):
     return res
 
 
+def sig_of(ffiname, desc, tk, kind, x, family=None):
+    """The structured classification of a mismatch (one signature per root cause)."""
+    if has_void_argument(desc):
+        # one root cause, whatever the suffix: new_function_type() let a `void` parameter through, and the
+        # name of that ctype reads as the function without parameters
+        return {"kind": kind, "ffi": ffiname, "cause": "function_ctype_with_void_parameter"}
+    if has_unnamed_aggregate(desc):
+        # one root cause, whatever the suffix and the wrapper: the name of the ctype contains `struct $N` /
+        # `union $N` / `enum $N`, which is neither C nor (in-line) a reference to the declared type
+        return {"kind": kind, "ffi": ffiname, "unnamed_aggregate": True}
+    sig = {"kind": kind, "suffix": x, "ffi": ffiname, "type": tk}
+    if family is not None:
+        sig["family"] = family
+    return sig
+
+
+def has_unnamed_aggregate(desc):
+    """A struct/union/enum whose cffi name is `$N` occurs in the (described) type."""
+    if desc[0] == "pointer":
+        return has_unnamed_aggregate(desc[1])
+    if desc[0] == "array":
+        return has_unnamed_aggregate(desc[2])
+    if desc[0] == "function":
+        return any(has_unnamed_aggregate(a) for a in desc[1]) or has_unnamed_aggregate(desc[2])
+    return desc[0] in ("struct", "union", "enum") and "$" in desc[1]
+
+
 def verify(block):
-    """Phase 2: block = [(ffi name, key, string)]."""
+    """Phase 2: block = [(ffi name, key, string, extended suffixes too?)]."""
     pair = _pair()
     ffis = dict(_ffis(pair))
     counts = collections.Counter()
     bad = []
     n = 0
     gcc_items = []
-    for name, key, s in block:
+    for name, key, s, ext in block:
         ffi = ffis[name]
         T = ffi.typeof(s)
         if key_of(T) != key:
             raise InfraError("type of %r changed between the two phases" % (s,))
-        k, cnt, b, decl, size = check_type(ffi, T)
+        model = model_of(ffi, s) if name == "inline" else None
+        k, cnt, b, decl, size = check_type(ffi, T, s, X.ALL_SUFFIXES if ext else SUFFIXES, model)
         n += k
         counts.update(cnt)
         counts["types:%s:%s" % (name, tkind(T))] += 1
+        if ext:
+            counts["types_with_extended_suffixes:%s:%s" % (name, tkind(T))] += 1
         for kind, x, info in b:
             bad.append((name, key, s, tkind(T), kind, x, info))
         if decl is not None:
@@ -260,6 +410,71 @@ def verify(block):
             else:
                 counts["gcc_sizeof_ok:%s" % tk] += 1
     return n, dict(counts), bad
+
+
+# ---------------------------------------------------------------------------------------
+# side families (context X.XDECLS)
+
+_XPAIR = None
+
+
+def _xpair():
+    global _XPAIR
+    if _XPAIR is None or _XPAIR[0] != os.getpid():
+        d = os.path.join(_workdir(), "x%d" % os.getpid())
+        os.makedirs(d, exist_ok=True)
+        _XPAIR = (os.getpid(), X.make_pair(d), d)
+    return _XPAIR[1]
+
+
+def side_check(pair, directory, tag, block):
+    """block = [(family, ffi name, spec)] -> (n, counts, [(family, ffi, spec, desc, tkind, kind, suffix, info)])"""
+    ffis = dict(_ffis(pair))
+    counts = collections.Counter()
+    bad = []
+    n = 0
+    gcc_items = []
+    for family, name, spec in block:
+        ffi = ffis[name]
+        try:
+            T = X.resolve(ffi, spec)
+        except (TypeError, ValueError, OverflowError) as e:
+            # the backend has no such ctype (array length x item size overflows, ...)
+            counts["side:%s:%s:no_such_ctype" % (family, name)] += 1
+            continue
+        s = spec[1] if spec[0] == "typeof" else None
+        model = model_of(ffi, s) if (name == "inline" and s is not None) else None
+        k, cnt, b, decl, size = check_type(ffi, T, s, X.ALL_SUFFIXES, model)
+        n += k
+        counts.update(cnt)
+        desc = G.describe(T)
+        tk = tkind(T)
+        cls = ":unnamed" if has_unnamed_aggregate(desc) else (":named_control" if family == "unnamed" else "")
+        counts["side:%s%s:%s:%s" % (family, cls, name, tk)] += 1
+        for kind, x, info in b:
+            bad.append((family, name, spec, desc, tk, kind, x, info))
+        if decl is not None:
+            gcc_items.append((family, name, spec, desc, tk, decl, size))
+    if gcc_items:
+        res = X.gcc_static_sizes([(it[5], it[6]) for it in gcc_items], directory, tag)
+        for (family, name, spec, desc, tk, decl, size), r in zip(gcc_items, res):
+            n += 1
+            if r == "ok":
+                counts["side:gcc_sizeof_ok:%s" % family] += 1
+            else:
+                kind = "gcc_rejects" if r[0] == "rejected" else "sizeof_differs"
+                bad.append((family, name, spec, desc, tk, kind, "v",
+                            {"declaration": decl + ";", "gcc": r[1], "ffi_sizeof": size}))
+    return n, dict(counts), bad
+
+
+def side_verify(block):
+    pair = _xpair()
+    return side_check(pair, _XPAIR[2], "%d" % os.getpid(), block)
+
+
+def phase2(item):
+    return side_verify(item[1]) if item[0] == "side" else verify(item[1])
 
 
 def _workdir():
@@ -298,56 +513,108 @@ def _run(ctx):
             for key, s in out[name].items():
                 if key not in d or order[s] < order[d[key]]:
                     d[key] = s
+    cost_of = {G.spaced(t): c for c, t in g.typenames(depth)}
     items = []
+    next_ext = collections.Counter()
     for name in ("inline", "compiled"):
         for key in sorted(types[name], key=lambda k: order[types[name][k]]):
-            items.append((name, key, types[name][key]))
+            s = types[name][key]
+            if ctx.quick:
+                cls = (name, desc_tkind(json.loads(key)))
+                next_ext[cls] += 1
+                ext = next_ext[cls] <= EXT_PER_CLASS
+            else:
+                ext = cost_of[s] <= 3
+            items.append((name, key, s, ext))
     distinct = len(set(types["inline"]) | set(types["compiled"]))
-    ctx.log("%d accepted parses, %d distinct ctypes in-line, %d compiled, %d distinct overall" % (
-        accepted, len(types["inline"]), len(types["compiled"]), distinct))
+    ctx.log("%d accepted parses, %d distinct ctypes in-line, %d compiled, %d distinct overall; %d (FFI, ctype) with "
+            "the extended suffixes" % (accepted, len(types["inline"]), len(types["compiled"]), distinct,
+                                       sum(1 for it in items if it[3])))
     for i in range(0, len(items), max(1, len(items) // 40)):
-        ctx.sample({"ffi": items[i][0], "type": items[i][2], "suffixes": SUFFIXES})
+        ctx.sample({"ffi": items[i][0], "type": items[i][2],
+                    "suffixes": X.ALL_SUFFIXES if items[i][3] else SUFFIXES})
 
     counts = collections.Counter()
     evaluated = 0
     bad = []
-    for block, r in pool.pmap(verify, [[b] for b in pool.chunks(items, BLOCK2)]):
+    # the (FFI, ctype) pairs with the extended alphabet cost 4x: spread them over the blocks
+    items.sort(key=lambda it: not it[3])
+    nblocks = max(1, (len(items) + BLOCK2 - 1) // BLOCK2)
+    blocks = [items[i::nblocks] for i in range(nblocks)]
+    # side families: in the same pool run as the grammar types (forking workers is the expensive part here)
+    side = [(fam, name, spec) for name in ("inline", "compiled") for fam, spec in X.families(ctx.quick)]
+    for i in range(0, len(side), max(1, len(side) // 12)):
+        ctx.sample({"family": side[i][0], "ffi": side[i][1], "type": side[i][2], "suffixes": X.ALL_SUFFIXES})
+    nside = max(1, (len(side) + BLOCK3 - 1) // BLOCK3)
+    work = [("side", side[i::nside]) for i in range(nside)] + [("grammar", b) for b in blocks]
+    side_bad = []
+    side_eval = 0
+    for item, r in pool.pmap(phase2, [[w] for w in work]):
         if isinstance(r, pool.WorkerError):
             raise InfraError("worker failed: %s" % r.tb)
         if isinstance(r, pool.Crash):
-            raise InfraError("worker died (%s) in a block starting with %r" % (r.describe(), block[0]))
+            raise InfraError("worker died (%s) in a %s block starting with %r" % (r.describe(), item[0], item[1][0]))
         n, cnt, b = r
-        evaluated += n
         counts.update(cnt)
-        bad.extend(b)
+        if item[0] == "side":
+            side_eval += n
+            side_bad.extend(b)
+        else:
+            evaluated += n
+            bad.extend(b)
+    ctx.log("grammar types: %d evaluations; side families: %d (FFI, ctype) cases, %d evaluations" % (
+        evaluated, len(side), side_eval))
+    evaluated += side_eval
+
     for k, v in counts.items():
         ctx.count(k, v)
     groups = collections.defaultdict(list)
     for name, key, s, tk, kind, x, info in bad:
-        if has_void_argument(json.loads(key)):
-            # one root cause, whatever the suffix: new_function_type() let a `void` parameter through, and the
-            # name of that ctype reads as the function without parameters
-            sig = {"kind": kind, "ffi": name, "cause": "function_ctype_with_void_parameter"}
-        else:
-            sig = {"kind": kind, "suffix": x, "ffi": name, "type": tk}
-        groups[tuple(sorted(sig.items()))].append((order[s], s, name, x, kind, info))
+        sig = sig_of(name, json.loads(key), tk, kind, x)
+        groups[tuple(sorted(sig.items()))].append(
+            ((0, order[s]), s, {"ffi": name, "type": s, "suffix": x, "kind": kind, "info": info}))
+    side_order = {json.dumps(spec): i for i, (fam, name, spec) in enumerate(side)}
+    for fam, name, spec, desc, tk, kind, x, info in side_bad:
+        sig = sig_of(name, desc, tk, kind, x, fam)
+        groups[tuple(sorted(sig.items()))].append(
+            ((1, side_order[json.dumps(spec)]), json.dumps(spec) + x,
+             {"family": fam, "ffi": name, "spec": spec, "suffix": x, "kind": kind, "info": info}))
     first, rest = [], []
-    for k in sorted(groups):
+    for k in sorted(groups, key=lambda k: json.dumps(k)):
         lst = sorted(groups[k], key=lambda t: t[:2])
         first.append((k, lst[0]))
         rest.extend((k, t) for t in lst[1:])
-    for k, (_, s, name, x, kind, info) in first + rest:
-        ctx.violation(dict(k), {"ffi": name, "type": s, "suffix": x, "kind": kind, "info": info})
-    nontrivial = sum(v for k, v in counts.items() if k.startswith("types:") and not k.endswith((":primitive", ":void")))
+    for k, (_, _, detail) in first + rest:
+        ctx.violation(dict(k), detail)
+    nontrivial = sum(v for k, v in counts.items() if k.startswith(("types:", "side:")) and not k.startswith("side:gcc")
+                     and not k.endswith((":primitive", ":void", ":no_such_ctype")))
     cov = {
         "evaluations": evaluated,
         "distinct_nontrivial": nontrivial,
         "rule": "an evaluation is one (FFI, ctype, suffix) re-parse comparison or one (FFI, ctype) gcc sizeof "
                 "comparison; ctypes = all distinct ctypes (by structure) denoted in the context 'decls' by the "
                 "derivations of depth <= %d of grammar G, per FFI; non-trivial = (FFI, ctype) pairs whose ctype is "
-                "not a bare primitive or void (pointer, array, function pointer, struct, union, enum)" % depth,
+                "not a bare primitive or void (pointer, array, function pointer, struct, union, enum).  Every getctype "
+                "call is also made with the string form (one more evaluation: same text), and in the in-line FFI "
+                "model.get_c_name of the parsed type is evaluated next to it (one more evaluation: same text, or "
+                "re-parses to the expected ctype).  The %d extended suffixes (expected ctype from the declarator "
+                "interpreter) are applied to %s.  Side families (context = the same declarations plus unnamed "
+                "aggregates), each ctype under all %d suffixes in both FFIs with the gcc clause as a _Static_assert: "
+                "%d unnamed-aggregate / named-control ctypes (%d bases x %d wrappers), the %d keys of "
+                "ALL_PRIMITIVE_TYPES, %d array lengths x %d positions, %d function types with many / nested / "
+                "aggregate parameters" % (
+                    depth, len(X.EXT_SUFFIXES),
+                    ("the first %d ctypes of every (FFI, kind) class" % EXT_PER_CLASS) if ctx.quick
+                    else "every ctype of derivation depth <= 3",
+                    len(X.ALL_SUFFIXES), len(X.UNNAMED_BASES) * len(X._wrapped(["typeof", "int"])),
+                    len(X.UNNAMED_BASES), len(X._wrapped(["typeof", "int"])),
+                    sum(1 for f, _ in X.families(ctx.quick) if f == "prim"),
+                    len(X.BIG_LENGTHS), len(X.BIG_FORMS), len(X.FNARGS)),
         "exhaustive": True,
-        "bound": {"derivation_depth": depth, "suffixes": SUFFIXES},
+        "bound": {"derivation_depth": depth, "suffixes": SUFFIXES, "extended_suffixes": X.EXT_SUFFIXES,
+                  "extended_on": ("first %d per (FFI, kind)" % EXT_PER_CLASS) if ctx.quick else "depth <= 3"},
+        "side_family_cases": len(side),
+        "side_family_evaluations": side_eval,
         "derivations": len(strings),
         "distinct_ctypes": distinct,
         "ctypes_inline": len(types["inline"]),
@@ -357,6 +624,9 @@ def _run(ctx):
         "gcc 12 with -w (GNU C) decides whether a declaration is acceptable and its sizeof",
         "the expected ctype of every suffix is built with _cffi_backend.new_pointer_type/new_array_type/"
         "new_function_type; identity of equal types rests on the backend's unique-type cache",
+        "the declarator interpreter (vlib/props/_c08x.py) reads the extended suffixes as C does; it is compared with "
+        "the hand-written table on the ten basic suffixes for every ctype",
+        "_cffi_float_complex_t / _cffi_double_complex_t are declared for gcc as cffi's own header declares them",
     ])
 
 
@@ -364,21 +634,40 @@ def replay(detail):
     d = os.path.join(build.scratch_shared(), "replay%d" % os.getpid())
     os.makedirs(d, exist_ok=True)
     try:
-        pair = G.make_pair("decls", d)
-        ffi = dict(_ffis(pair))[detail["ffi"]]
-        s, x = detail["type"], detail["suffix"]
-        T = ffi.typeof(s)
-        print("ffi      : %s" % detail["ffi"])
-        print("T        : typeof(%r) = %r" % (s, T))
-        n, counts, bad, decl, size = check_type(ffi, T)
+        x = detail["suffix"]
+        side = "spec" in detail
+        if side:
+            pair = X.make_pair(d)
+            ffi = dict(_ffis(pair))[detail["ffi"]]
+            spec = detail["spec"]
+            T = X.resolve(ffi, spec)
+            s = spec[1] if spec[0] == "typeof" else None
+            print("context  : vlib/props/_c08x.py XDECLS (family %r)" % (detail.get("family"),))
+            print("ffi      : %s" % detail["ffi"])
+            print("T        : %r = %r" % (spec, T))
+        else:
+            pair = G.make_pair("decls", d)
+            ffi = dict(_ffis(pair))[detail["ffi"]]
+            s = detail["type"]
+            T = ffi.typeof(s)
+            print("ffi      : %s" % detail["ffi"])
+            print("T        : typeof(%r) = %r" % (s, T))
+        model = model_of(ffi, s) if (detail["ffi"] == "inline" and s is not None) else None
+        n, counts, bad, decl, size = check_type(ffi, T, s, X.ALL_SUFFIXES, model)
         hit = [b for b in bad if b[1] == x and b[0] == detail["kind"]]
         for b in bad:
             print("MISMATCH : suffix %r %s %s" % (b[1], b[0], b[2]))
         if detail["kind"] in ("gcc_rejects", "sizeof_differs") and decl is not None:
-            r = gcc_sizes([decl], d, "r")[0]
-            print("gcc      : `%s;` -> %r ; ffi.sizeof(T) = %r" % (decl, r, size))
-            if isinstance(r, tuple) or r != size:
-                hit.append(r)
+            if side:
+                r = X.gcc_static_sizes([(decl, size)], d, "r")[0]
+                print("gcc      : `%s; _Static_assert(sizeof(v) == %d)` -> %r" % (decl, size, r))
+                if r != "ok":
+                    hit.append(r)
+            else:
+                r = gcc_sizes([decl], d, "r")[0]
+                print("gcc      : `%s;` -> %r ; ffi.sizeof(T) = %r" % (decl, r, size))
+                if isinstance(r, tuple) or r != size:
+                    hit.append(r)
         if not hit:
             print("no mismatch for suffix %r" % (x,))
         return 1 if hit else 0
